@@ -852,6 +852,264 @@ def _jsonable_trace(trace):
 
 
 # ---------------------------------------------------------------------------
+# schedule family: concurrent lock() / call / unlock() under the deterministic scheduler
+# ---------------------------------------------------------------------------
+#
+# The model treats `make_unique_token` (counter read + write under `_unique_counters_lock`) and one request handled
+# by the worker as atomic actions.  This family checks that against the real code over interleavings: 2-4 managed
+# threads, each with its own proxy (same context / different contexts / mixed), do lock() - call - unlock() under
+# harness.simworld.run_scenario with a yield point at every *line* of QMI_Context.make_unique_token.
+#
+# spec = {"kind": "conc", "layout": "same-srv"|"same-cli"|"diff"|"mixed", "threads": k, "rounds": r,
+#         "policy": "weighted"|"pct", "seed": n, "change_points": [..]|None}
+
+_CONC_LAYOUTS = ("same-srv", "same-cli", "diff", "mixed")
+
+
+class _ConcTaps:
+    """Outside taps for one scenario: worker-side request log (a linearisation, one thread runs at a time), every
+    automatically generated token with the generating thread, the step window of each make_unique_token call."""
+
+    def __init__(self):
+        self.sched = None
+        self.ctx_ids = {}
+
+    def __enter__(self):
+        import qmi.core.rpc as rpc
+        import qmi.core.context as qctx
+        self.rpc, self.qctx = rpc, qctx
+        self.o_lock = rpc._RpcThread._handle_lock_rpc_request
+        self.o_meth = rpc._RpcThread._handle_method_rpc_request
+        self.o_mut = qctx.QMI_Context.make_unique_token
+        taps = self
+        o_lock, o_meth, o_mut = self.o_lock, self.o_meth, self.o_mut
+
+        def t_lock(th, request):
+            sc = taps.sched
+            if sc is None or request.destination_address.object_id != "obj":
+                return o_lock(th, request)
+            before = th._locking_token
+            try:
+                reply = o_lock(th, request)
+            except BaseException as e:  # noqa
+                sc.log("lockreq", request.lock_action.name, request.lock_token, before, "exc:" + type(e).__name__, th._locking_token)
+                raise
+            sc.log("lockreq", request.lock_action.name, request.lock_token, before, reply.lock_token, th._locking_token)
+            return reply
+
+        def t_meth(th, request):
+            sc = taps.sched
+            if sc is None or request.destination_address.object_id != "obj":
+                return o_meth(th, request)
+            before = th._locking_token
+            reply = o_meth(th, request)
+            who = request.method_args[0] if request.method_args else None
+            sc.log("mreq", who, request.lock_token, before, reply.state.name, reply.result if reply.state.name == "RESULT_IS_VALUE" else None)
+            return reply
+
+        def t_mut(cx, prefix="$lock_"):
+            sc = taps.sched
+            if sc is None or prefix != "$lock_":
+                return o_mut(cx, prefix)
+            me = sc.me()
+            a = sc.steps
+            tok = o_mut(cx)
+            sc.log("gen", taps.ctx_ids.get(id(cx), -1), me.name if me else "?", tok, a, sc.steps)
+            return tok
+
+        rpc._RpcThread._handle_lock_rpc_request = t_lock
+        rpc._RpcThread._handle_method_rpc_request = t_meth
+        qctx.QMI_Context.make_unique_token = t_mut
+        return self
+
+    def __exit__(self, *a):
+        self.rpc._RpcThread._handle_lock_rpc_request = self.o_lock
+        self.rpc._RpcThread._handle_method_rpc_request = self.o_meth
+        self.qctx.QMI_Context.make_unique_token = self.o_mut
+        return False
+
+
+def _conc_obj_class():
+    import qmi.core.rpc as rpc
+    if _state.get("conc_cls") is None or _state.get("conc_cls_mod") is not rpc:
+        class C04ConcObject(rpc.QMI_RpcObject):
+            def __init__(self, context, name):
+                super().__init__(context, name)
+                self.count = 0
+
+            @rpc.rpc_method
+            def bump(self, who):
+                self.count += 1
+                return self.count
+
+        _state["conc_cls"] = C04ConcObject
+        _state["conc_cls_mod"] = rpc
+    return _state["conc_cls"]
+
+
+def _conc_ctx_layout(spec):
+    """context index per thread; index 0 = owning context; names of the client contexts"""
+    k, lay = spec["threads"], spec["layout"]
+    if lay == "same-srv":
+        return [0] * k, []
+    if lay == "same-cli":
+        return [1] * k, ["cli"]
+    if lay == "diff":
+        return list(range(1, k + 1)), [f"cli{i}" for i in range(k)]
+    return [1, 1] + list(range(2, k)), ["cli"] + [f"cli{i}" for i in range(2, k)]     # mixed: two share a context
+
+
+def run_conc(spec: dict):
+    """Run one schedule scenario on the real code.  Returns (outcome, events, per-thread results)."""
+    from harness.simworld import run_scenario
+    import qmi.core.context as qctx
+    from qmi.core.exceptions import QMI_RuntimeException
+    ctx_of, cli_names = _conc_ctx_layout(spec)
+    with _ConcTaps() as taps:
+        traced = taps.o_mut
+
+        def body(w):
+            srv = w.context("srv", server=True)
+            srv.make_rpc_object("obj", _conc_obj_class())
+            ctxs = [srv]
+            for nm in cli_names:
+                c = w.context(nm)
+                w.connect(c, srv)
+                ctxs.append(c)
+            for i, c in enumerate(ctxs):
+                taps.ctx_ids[id(c)] = i
+            proxies = [ctxs[ci].get_rpc_object_by_name("srv.obj") for ci in ctx_of]
+            taps.sched = w.sched
+            w.sched.log("start", w.sched.steps)
+
+            def worker(i):
+                p = proxies[i]
+                res = []
+                for _ in range(spec.get("rounds", 1)):
+                    r = p.lock()
+                    try:
+                        v = ("ran", p.bump(i))
+                    except QMI_RuntimeException as e:
+                        v = ("locked",) if "locked" in str(e) else ("exc", type(e).__name__)
+                    u = p.unlock() if r else None
+                    res.append((r, v, u))
+                return res
+
+            ths = [w.spawn((lambda i=i: worker(i)), f"t{i}") for i in range(spec["threads"])]
+            for t in ths:
+                t.join()
+            taps.sched = None
+            return [(t.value, type(t.exc).__name__ if t.exc is not None else None) for t in ths]
+
+        out = run_scenario(spec["seed"], body, policy=spec["policy"], change_points=spec.get("change_points"),
+                           trace_funcs=[traced], max_steps=200000)
+        taps.sched = None
+    return out, list(out.sched.events), out.value
+
+
+def conc_oracle(spec: dict, out, events, results):
+    """The property on one schedule.  Returns [(signature, detail)]."""
+    ctx_of, cli_names = _conc_ctx_layout(spec)
+    names = ["srv"] + cli_names
+    tctx = {f"t{i}": ci for i, ci in enumerate(ctx_of)}
+    fails = []
+
+    def rel(ta, tb):
+        ca, cb = tctx.get(ta, -1), tctx.get(tb, -1)
+        return "same-context" if ca == cb else ("same-name-different-context" if names[ca] == names[cb] else "different-name")
+
+    if out.deadlock:
+        return [("concurrent:deadlock", f"scheduler reports: {out.deadlock[:300]}")]
+    if out.budget:
+        return [("concurrent:step-budget-exceeded", "scenario did not finish within its step budget")]
+    if out.error is not None:
+        return [(f"concurrent:error:{type(out.error).__name__}", repr(out.error)[:300])]
+    if out.thread_errors:
+        nm, e = out.thread_errors[0]
+        return [(f"concurrent:thread-died:{type(e).__name__}", f"thread {nm}: {e!r}"[:300])]
+    gens = {}          # token -> [thread]
+    for ev in events:
+        if ev[0] == "gen":
+            _, ci, th, tok, a, b = ev
+            th = th.split("#")[0]
+            key = tuple(tok)
+            if key in gens and not any(s.startswith("concurrent:auto-token-collision") for s, _ in fails):
+                fails.append((f"concurrent:auto-token-collision:{rel(th, gens[key][0])}",
+                              f"threads {gens[key][0]} and {th} both generated {key}"))
+            gens.setdefault(key, []).append(th)
+    for ev in events:
+        if ev[0] == "lockreq":
+            _, act, tok, before, reply, after = ev
+            if isinstance(reply, str) and reply.startswith("exc:"):
+                fails.append((f"concurrent:lock-handler-raised:{act}:{reply[4:]}", f"{act} with {tok} while owner {before}"))
+                break
+            if act == "ACQUIRE" and before is not None and reply == tok:
+                a = gens.get(tuple(before), ["?"])[0]
+                b = [t for t in gens.get(tuple(tok), ["?"]) if t != a] or gens.get(tuple(tok), ["?"])
+                fails.append((f"concurrent:lock-granted-while-locked:{rel(a, b[0])}",
+                              f"ACQUIRE with {tuple(tok)} (generated by {gens.get(tuple(tok))}) granted while the object is locked with {tuple(before)}"))
+                break
+            if act == "RELEASE" and before is not None and after is None and tok != before:
+                fails.append(("concurrent:released-by-non-owner", f"RELEASE with {tok} released {before}"))
+                break
+        elif ev[0] == "mreq":
+            _, who, tok, before, state, val = ev
+            holders = gens.get(tuple(before), []) if before is not None else []
+            if state == "RESULT_IS_VALUE" and before is not None and f"t{who}" not in holders:
+                fails.append((f"concurrent:foreign-call-executed:{rel('t%s' % who, holders[0]) if holders else '?'}",
+                              f"body ran for thread t{who} (token {tok}) while locked with {tuple(before)} generated by {holders}"))
+                break
+            if state == "OBJECT_IS_LOCKED" and (before is None or [f"t{who}"] == holders):
+                fails.append(("concurrent:owner-call-refused", f"thread t{who} refused, owner {before}"))
+                break
+    if results is not None:
+        for i, (val, exc) in enumerate(results):
+            if exc is not None:
+                fails.append((f"concurrent:caller-raised:{exc}", f"thread t{i} raised {exc}"))
+            elif val is not None:
+                for (r, v, u) in val:
+                    if r is True and v[0] != "ran":
+                        fails.append(("concurrent:owner-call-refused", f"thread t{i}: lock() True but its call answered {v}"))
+                    if r is True and u is not True and not fails:
+                        fails.append(("concurrent:owner-unlock-denied", f"thread t{i}: lock() True, unlock() {u}"))
+    return fails
+
+
+def conc_model_lines(events):
+    """Worker-side linearised request log as driver lines + the outputs the real worker produced (trace refinement)."""
+    def st(t):
+        return "-" if t is None else f"{t[0]}/{t[1]}"
+    lines, outs = ["init srv"], ["ok"]
+    amap = {"ACQUIRE": "acquire", "RELEASE": "release", "FORCE_RELEASE": "force", "QUERY": "query"}
+    for ev in events:
+        if ev[0] == "lockreq":
+            _, act, tok, before, reply, after = ev
+            lines.append(f"req {amap.get(act, act)} {st(tok)}")
+            outs.append("hang" if isinstance(reply, str) else f"{st(reply)} {st(after)}")
+        elif ev[0] == "mreq":
+            _, who, tok, before, state, val = ev
+            lines.append(f"mreq {st(tok)}")
+            outs.append(f"ran {val}" if state == "RESULT_IS_VALUE" else "locked" if state == "OBJECT_IS_LOCKED" else f"exc:{state}")
+    return lines, outs
+
+
+def conc_specs(rng, quick: bool) -> list:
+    """weighted + pct runs for every layout, then change-point sweeps (filled in by the caller from baseline runs)."""
+    specs = []
+    for lay in _CONC_LAYOUTS:
+        for k in ((2, 3) if quick else (2, 3, 4)):
+            if lay == "mixed" and k < 3:
+                continue
+            for j in range(4 if quick else 16):
+                specs.append({"kind": "conc", "layout": lay, "threads": k, "rounds": 1 + (j % 2), "policy": "weighted",
+                              "seed": rng.randrange(1 << 30), "change_points": None})
+            for j in range(2 if quick else 8):
+                specs.append({"kind": "conc", "layout": lay, "threads": k, "rounds": 1, "policy": "pct",
+                              "seed": rng.randrange(1 << 30), "change_points": None})
+    return specs
+
+
+# ---------------------------------------------------------------------------
 # the check
 # ---------------------------------------------------------------------------
 
@@ -871,6 +1129,9 @@ class C04(Prop):
     modelled_not_verified = [
         "message transport between proxy and worker (QMI_RpcFuture, MessageRouter, TCP peers): a request reaches the worker and "
         "its reply reaches the caller unchanged — exercised over real loopback TCP here, verified by C01/C06, not by C04",
+        "atomicity of QMI_Context.make_unique_token (counter read+write under _unique_counters_lock) and of one request handled by "
+        "the worker: assumed by the model (`freshToken`, `lockRequest` are single actions), checked over interleavings by the "
+        "schedule family (harness.simworld, line-level yield points), not proved",
         "QMI_RpcProxy.lock(timeout > 0) retry loop (only the single-attempt path timeout=0 is modelled)",
         "str(int) of the token counter = Lean `toString` on Nat (differentially checked by every automatic lock())",
         "custom tokens that imitate the automatic namespace (`$lock_<n>`) are deliberate forgery and are not generated",
@@ -961,13 +1222,79 @@ class C04(Prop):
                 summary=f"{sig}: contexts={[small['srv']] + small['ctxs']} proxies@ctx={small['proxies']} ops={small['ops']}: {detail}",
                 replay={"kind": "history", "history": small, "signature": sig, "observed": shown, "seen_in_histories": len(lst)}))
 
+    # -- schedule family ----------------------------------------------------------------------------
+    def _conc_one(self, spec: dict, res: Result, cfail: dict, lines_acc: list):
+        out, events, results = run_conc(spec)
+        res.note_case(("conc", spec["layout"], spec["threads"], spec["rounds"], spec["policy"], spec["seed"],
+                       tuple(spec["change_points"] or ())), nontrivial=True)
+        res.count("conc_scenarios")
+        res.count(f"conc_{spec['layout']}_{spec['threads']}threads")
+        res.count(f"conc_policy_{spec['policy']}{'_sweep' if spec.get('change_points') else ''}")
+        res.count("conc_sched_steps", out.sched.steps)
+        grants = sum(1 for e in events if e[0] == "lockreq" and e[1] == "ACQUIRE" and e[4] == e[2])
+        denied = sum(1 for e in events if e[0] == "lockreq" and e[1] == "ACQUIRE" and e[4] != e[2])
+        res.count("conc_acquire_granted", grants)
+        res.count("conc_acquire_denied", denied)
+        res.count("conc_calls_refused", sum(1 for e in events if e[0] == "mreq" and e[4] == "OBJECT_IS_LOCKED"))
+        res.traces_validated += 1
+        for (sig, detail) in conc_oracle(spec, out, events, results):
+            cfail.setdefault(sig, []).append((spec, detail))
+        l, o = conc_model_lines(events)
+        lines_acc.append((spec, l, o))
+        return out, events
+
+    def _conc_family(self, ctx: Ctx, res: Result, quick: bool):
+        """weighted + pct runs of every layout, then change-point sweeps: every step of the first make_unique_token calls
+        of a baseline pct run (the window a lost counter update needs), and a coarse sweep over the concurrent phase."""
+        cfail: dict = {}
+        acc: list = []
+        for spec in conc_specs(ctx.rng, quick):
+            self._conc_one(spec, res, cfail, acc)
+        for lay in _CONC_LAYOUTS:
+            for k in ((2,) if quick else (2, 3)):
+                k = max(k, 3) if lay == "mixed" else k
+                base = {"kind": "conc", "layout": lay, "threads": k, "rounds": 1, "policy": "pct",
+                        "seed": ctx.rng.randrange(1 << 30), "change_points": []}
+                out, events = self._conc_one(base, res, cfail, acc)
+                start = next((e[1] for e in events if e[0] == "start"), 0)
+                pts = set()
+                for e in [e for e in events if e[0] == "gen"][:2]:
+                    pts.update(range(max(1, e[4] - 1), e[5] + 2))
+                span = max(1, out.sched.steps - start)
+                stride = max(1, span // (10 if quick else 40))
+                pts.update(range(start, out.sched.steps, stride))
+                for c in sorted(pts):
+                    self._conc_one({**base, "change_points": [c]}, res, cfail, acc)
+        # trace refinement of the worker-side request log
+        all_lines, all_outs, spans = [], [], []
+        for (spec, l, o) in acc:
+            spans.append((len(all_lines), len(l), spec))
+            all_lines += l
+            all_outs += o
+        model = LeanDriver(self.driver).run(all_lines)
+        kx = diff_streams(all_lines, all_outs, model)
+        if kx is not None:
+            for (start, ln, spec) in spans:
+                if start <= kx < start + ln:
+                    res.broken.append(Broken("correspondence", "Lock.lockRequest/callRequest vs worker request log (schedule family)",
+                                             f"line {kx - start}: {all_lines[kx]!r} impl={all_outs[kx]!r} model={model[kx]!r}",
+                                             case={"kind": "conc", "spec": spec}))
+                    break
+        for sig, lst in cfail.items():
+            spec, detail = lst[0]
+            res.failures.append(Failure(sig, f"{sig}: {spec['layout']}, {spec['threads']} threads, policy={spec['policy']} "
+                                             f"seed={spec['seed']} change_points={spec.get('change_points')}: {detail}",
+                                        {"kind": "conc", "spec": spec, "signature": sig, "seen_in_scenarios": len(lst)}))
+
     # -- correspondence ---------------------------------------------------------------------------
     def correspondence(self, ctx: Ctx) -> Result:
         res = Result(rule="history = (server name, 1-3 client context names incl. duplicates, 1-4 proxies placed in the client contexts "
                           "or the owning context, op list over lock/unlock (automatic + custom tokens)/force_unlock/is_locked/"
                           "call (blocking + non-blocking)/burn) from the seeded PRNG, run on real QMI_Context instances over loopback TCP; "
                           "plus the exhaustive (state × action × actor) sweep; non-trivial = contains a lock and a call or unlock; "
-                          "distinct by the full history")
+                          "distinct by the full history; schedule family: 2-4 managed threads (same context / different contexts / "
+                          "mixed) doing lock-call-unlock under the deterministic scheduler with line-level yield points in "
+                          "make_unique_token, weighted + pct policies + change-point sweeps, worker request log replayed on the model")
         failures: dict = {}
         with _Instrumented():
             self._run_batch(ctx, sweep_histories(), res, "sweep", failures)
@@ -977,6 +1304,7 @@ class C04(Prop):
             for i in range(0, len(hists), 100):
                 self._run_batch(ctx, hists[i:i + 100], res, "random", failures)
             self._report(failures, res)
+        self._conc_family(ctx, res, ctx.quick)
         # malformed driver input
         drv = LeanDriver(self.driver)
         lines = ["init srv", "ctx cli", "proxy 1"] + [l for l, _ in _MALFORMED]
@@ -996,6 +1324,18 @@ class C04(Prop):
     def search(self, ctx: Ctx, broken) -> Result:
         res = Result()
         failures: dict = {}
+        for b in broken:
+            if b.case and b.case.get("kind") == "conc":
+                spec = b.case["spec"]
+                out, events, results = run_conc(spec)
+                res.note_case(("conc-case", repr(spec)))
+                for (sig, detail) in conc_oracle(spec, out, events, results):
+                    res.failures.append(Failure(sig, f"{sig}: {spec}: {detail}", {"kind": "conc", "spec": spec, "signature": sig}))
+        if not any(f.signature.startswith("concurrent:") for f in res.failures):
+            sub = Result()
+            self._conc_family(ctx, sub, False)
+            sub.broken = []
+            res.merge(sub)
         with _Instrumented():
             for b in broken:
                 if b.case and "ops" in b.case:
@@ -1028,6 +1368,14 @@ class C04(Prop):
 
     # -- replay -----------------------------------------------------------------------------------
     def replay(self, ctx: Ctx, rp: dict):
+        if rp.get("kind") == "conc":
+            spec = rp["spec"]
+            out, events, results = run_conc(spec)
+            fs = conc_oracle(spec, out, events, results)
+            if not fs:
+                return None
+            sig, detail = next(((s_, d) for (s_, d) in fs if s_ == rp.get("signature")), fs[0])
+            return Failure(sig, f"{sig}: {detail}", rp)
         h = rp["history"]
         with _Instrumented():
             _, _, tr = run_history(h)
